@@ -337,6 +337,15 @@ fn process_msg_blocks(data: &[u8], h: &mut [u32; DIGEST_BUF_LEN]) {
 // initial state value
 const H: [u32; 5] = [0x67452301, 0xefcdab89, 0x98badcfe, 0x10325476, 0xc3d2e1f0];
 
+#[cfg(feature = "verif-hooks")]
+impl Context {
+    /// verification hook: preset the count of bytes processed so far (the length field of the padding
+    /// is derived from it)
+    pub fn verif_set_processed_bytes(&mut self, n: u128) {
+        self.processed_bytes = n as u64;
+    }
+}
+
 impl Context {
     /// Construct a new `Ripemd160` object
     pub const fn new() -> Self {
